@@ -373,8 +373,8 @@ def begin_gate(run):
 
 
 def moves_gate(run):
-    return gen_gate(run, 'translator_moves', 'gen_moves', 'table',
-                    'Gen.moveTable = C06.moveTable by rfl; tstep_untouched, tstep_touched, tstep_touches_iff (lean/Props/C06Moves.lean)',
+    return gen_gate(run, 'translator_moves', 'gen_moves', 'tables',
+                    'Gen.moveTable = C06.moveTable, Gen.ballotPositionUses = C06.ballotPositionUses by rfl; tstep_untouched, tstep_touched, tstep_touches_iff (lean/Props/C06Moves.lean)',
                     'the filtered iterations over E.ballots in the rule modules (which ballots a transfer touches), extracted, are no longer the table of '
                     'lean/Props/C06Moves.lean')
 
